@@ -380,3 +380,21 @@ def dhas(st, d, k):
             else:
                 st.assume(tm.Implies(j_dhas(d, k), tm.Le(tm.Int(1), j_dlen(d))))
     return t
+
+
+class GenExp:
+    """a generator expression not yet consumed (its node and defining frame).  NOT a tuple: every consumer has to ask
+    for it by name (is_genexp), anything else that meets one reports "unsupported" instead of treating it as data"""
+    def __init__(self, node, frame):
+        self.node, self.frame = node, frame
+
+    def __getitem__(self, k):          # v[1] / v[2], for the consumers written against the former triple
+        return ("genexp", self.node, self.frame)[k]
+
+    def __deepcopy__(self, memo):
+        import copy
+        return GenExp(self.node, copy.deepcopy(self.frame, memo))
+
+
+def is_genexp(v):
+    return isinstance(v, GenExp)
